@@ -244,7 +244,7 @@ def run(ck: Check):
                 runs.append({"warm": warm, "threads": fs, "schedule": []})
             else:
                 free_guard_case[(tuple(warm), tuple(fs))] = "trusted"
-            for _ in range(ck.n(3, 60)):
+            for _ in range(ck.n(3, 15)):
                 free_runs.append({"warm": warm, "threads": fs, "seed": r.randrange(1 << 30)})
     kinds["free-line"] = len(free_runs)
     # systematic two-thread exploration restricted to the self-mutating methods of XmlMeta / XmlVar
@@ -267,7 +267,7 @@ def run(ck: Check):
                     runs.append({"warm": warm, "threads": fs, "schedule": []})
                 else:
                     free_guard_case[(tuple(warm), tuple(fs))] = "trusted"
-            sys_runs.append({"warm": warm, "threads": fs, "seed": r.randrange(1 << 30), "max": ck.n(120, 3000)})
+            sys_runs.append({"warm": warm, "threads": fs, "seed": r.randrange(1 << 30), "max": ck.n(120, 500)})
     kinds["systematic-sets"] = len(sys_runs)
     nproc = ck.n(6, 12)
     chunks = [runs[i::nproc] for i in range(nproc)]
